@@ -68,6 +68,9 @@ def fmtDecSp (w v : Nat) : Text :=
   let d := natDec v
   List.replicate (w - d.length) 32 ++ d
 
+/-- `int(t)` for a string of ASCII digits -/
+def decVal (t : Text) : Nat := t.foldl (fun a c => a * 10 + (c - 48)) 0
+
 /-- bytes.hex(): two lower-case digits per byte -/
 def bytesHexL (b : Bytes) : Text := b.flatMap (fun x => [hexL (x / 16), hexL x])
 def bytesHexU (b : Bytes) : Text := b.flatMap (fun x => [hexU (x / 16), hexU x])
